@@ -8,7 +8,7 @@ From C15 Require Import Gen_VersionTable Version VersionProofs TableCheck PreFix
 From C15 Require Arr MultiMap MultiMapProofs Table TableProofs.
 From MomoCommon Require Import GenPrelude.
 From C15 Require Gen_VersionKeeper Gen_ArrayIndexIterator Gen_ArrayShifter Gen_ArrayGuards Gen_MultiMapGuards Gen_SelectionGuards
-  Gen_TableGuards Gen_TreeIterator Gen_SegmentedArrayGuards GuardProofs.
+  Gen_TableGuards Gen_TreeIterator Gen_SegmentedArrayGuards Gen_DataRawIterator GuardProofs.
 Import ListNotations.
 
 (* A handle (iterator / position) whose version snapshot differs from the current version of the container it was
@@ -572,3 +572,35 @@ Theorem C15_assign_target_handles_dropped :
     hs (fst (step k s o)) i = hnull.
 Proof. exact VersionProofs.assign_target_handles_dropped. Qed.
 Print Assumptions C15_assign_target_handles_dropped.
+
+(* ================= Grow round 3 ================= *)
+(* fix f1f44c5 as a generated fact: from no client-visible operator of a handle class is a noexcept member reachable that calls a checked
+   (may-throw) handle operation -- the exception-mode report can always reach the client *)
+Theorem C15_no_noexcept_on_checked_paths : noexcept_checked_paths = [] /\ Nat.leb 10 client_operators_scanned = true.
+Proof. exact TableCheck.no_noexcept_on_checked_paths_holds. Qed.
+Print Assumptions C15_no_noexcept_on_checked_paths.
+(* fix f5d4e4e as a generated fact: the range entry points check every row reference, the column sort / group / bounds of a selection check
+   its keeper first *)
+Theorem C15_stale_check_sites : forallb (fun r => snd r) stale_check_sites = true /\ Nat.leb 6 (List.length stale_check_sites) = true.
+Proof. exact TableCheck.stale_check_sites_hold. Qed.
+Print Assumptions C15_stale_check_sites.
+(* DataRawIterator (iterators of a DataSelection): operator+= exact for every ptrdiff_t diff (modular 64-bit sum, fix e44962b), the same
+   code as ArrayIndexIterator::operator+=; operator-> needs attached raws and an index below their count *)
+Theorem C15_gen_rawit_advance_exact :
+  forall (count_of : Z -> Z) idx diff raws,
+    raws <> 0%Z -> (0 <= idx <= count_of raws)%Z -> (count_of raws < 2 ^ 63)%Z -> (- 2 ^ 63 <= diff < 2 ^ 63)%Z ->
+    Gen_DataRawIterator.raw_add_assign idx count_of diff raws =
+      if ((0 <=? idx + diff) && (idx + diff <=? count_of raws))%Z then Ok (idx + diff)%Z else Exn.
+Proof. exact GuardProofs.rawit_advance_exact. Qed.
+Print Assumptions C15_gen_rawit_advance_exact.
+Theorem C15_gen_rawit_advance_same_code :
+  forall (count_of : Z -> Z) idx diff raws,
+    Gen_DataRawIterator.raw_add_assign idx count_of diff raws =
+      match Gen_ArrayIndexIterator.op_add_assign count_of raws idx diff with Ok (_, i) => Ok i | Stuck => Stuck | Fuel => Fuel | Exn => Exn end.
+Proof. exact GuardProofs.rawit_advance_same_code. Qed.
+Print Assumptions C15_gen_rawit_advance_same_code.
+Theorem C15_gen_rawit_deref_exact :
+  forall (count_of : Z -> Z) idx raws,
+    Gen_DataRawIterator.raw_arrow idx count_of raws = if (negb (raws =? 0) && (idx <? count_of raws))%Z then Ok tt else Exn.
+Proof. exact GuardProofs.rawit_deref_exact. Qed.
+Print Assumptions C15_gen_rawit_deref_exact.
